@@ -288,7 +288,13 @@ theorem readFragment_mb (l : Nat) (hl : cm.depthLimit = some l) : ∀ (n : Nat) 
           | none =>
             cases t with
             | none => exact (readInline_mb l hl n p3).trans hp3
-            | some t => cases t <;> first | exact hp3 | exact (readInline_mb l hl n p3).trans hp3
+            | some t =>
+              have hin := (readInline_mb l hl n p3).trans hp3
+              cases t <;> dsimp only <;>
+                first
+                | exact hp3
+                | exact hin
+                | (split <;> first | exact hp3 | exact hin)
         · split
           · exact (readInline_mb l hl n p2).trans hp2
           · exact (readFragRef_mb cm l hl tok p2).trans hp2
